@@ -40,12 +40,15 @@ def Heap.setReg (hp : Heap) (i : Nat) (r : Reg) : Heap := { hp with regs := hp.r
 
 def join (xs : List String) : String := if xs.isEmpty then "-" else ",".intercalate xs
 
-def kindNames (r : Reg) (k : Kind) : String := join (sortStrings ((r.lookupOf k).lints.map (fun e => e.md.name)))
+def kindNames (r : Reg) (k : Kind) : String :=
+  join (sortStrings ((r.lookupOf k).lints.map (fun e => e.md.name))) ++ "|src=" ++ join (sortStrings (r.lookupOf k).sources)
 
 /-- the two observations added for C01 / C12: a lint run holds exactly one result per registered lint of the
     kind — whenever it was registered — and the three per-kind views of a registry describe the same set -/
 def stepObs (hp : Heap) : Op → Option String
-  | .runKind h k => some (match hp.regOf h with | none => "bad-handle" | some (_, r) => "run=" ++ kindNames r k)
+  | .runKind h k => some (match hp.regOf h with
+      | none => "bad-handle"
+      | some (_, r) => "run=" ++ join (sortStrings ((r.lookupOf k).lints.map (fun e => e.md.name))))
   | .lookups h => some (match hp.regOf h with
       | none => "bad-handle"
       | some (_, r) => "lk=" ++ kindNames r .cert ++ "/" ++ kindNames r .crl ++ "/" ++ kindNames r .ocsp)
